@@ -43,7 +43,9 @@ func genFrames(r *vk.RNG, maxN int) []Frame {
 			}
 		}
 		var ts int64
-		switch r.Intn(5) {
+		switch r.Intn(6) {
+		case 5:
+			ts = -r.I64n(1 << vk.Pick(r, []uint{20, 40, 58, 62})) // before 1970: a date like any other (1969, 1815, 1700)
 		case 0:
 			ts = r.I64n(1 << 40) // near epoch, incl. 0..
 		case 1:
